@@ -497,9 +497,64 @@ def judge_concurrent(ctx, sc, obs, S):
     ctx.case(('conc', repr(sorted(sc.items(), key=str))), nontrivial=True, sample=w if ctx.evaluations % 200 == 1 else None)
 
 
+def check_named_segment(ctx):
+    """The object is asked for by the full name of ONE of its segments (a name ending in a segment component): whichever
+    segment that is, every segment of the object is yielded once and in order."""
+    C_ = lambda b: rc.comp(8, b)   # noqa
+    for n in (1, 3, 6):
+        for k in range(n):
+            for form in ('list', 'uri'):
+                res = {'yielded': [], 'reqs': []}
+                base = [C_(b'named'), C_(b'obj%d' % n), rc.comp(0x36, rc.enc_nni(7))]
+
+                async def main(S):
+                    face = RecFace()
+                    the_app = appv1.NDNApp(face=face, keychain=KeychainDigest())
+                    main_task = asyncio.ensure_future(the_app.main_loop())
+                    await asyncio.sleep(0)
+
+                    def on_send(wire):
+                        try:
+                            p_ = rc.strict_interest(wire)
+                        except rc.Reject:
+                            return
+                        nm = p_['name']
+                        if nm[:-1] == base and rc.comp_parts(nm[-1])[0] == 0x32:
+                            j = int.from_bytes(rc.comp_parts(nm[-1])[1], 'big')
+                            res['reqs'].append(j)
+                            if 0 <= j < n:
+                                d = bytes(make_data(base + [SEG(j)], MetaInfo(final_block_id=SEG(n - 1)), b'part-%d' % j, DigestSha256Signer()))
+                                asyncio.get_running_loop().call_soon(face.deliver_task, d)
+                    face.on_send = on_send
+                    nm_arg = base + [SEG(k)]
+                    try:
+                        async for c in segment_fetcher(the_app, list(nm_arg) if form == 'list' else rc.name_to_uri(nm_arg, canonical=True), timeout=100, retry_times=2):
+                            res['yielded'].append(bytes(c))
+                            if len(res['yielded']) > 20:
+                                break
+                        res['outcome'] = 'done'
+                    except Exception as e:   # noqa
+                        res['outcome'] = type(e).__name__
+                    the_app.shutdown()
+                    await asyncio.wait_for(main_task, 5)
+                S = vtime.run(main)
+                w = {'segments': n, 'asked_for_segment': k, 'form': form, 'requests': res['reqs'], 'outcome': res.get('outcome')}
+                ctx.case(('named-segment', n, k, form), nontrivial=True)
+                ctx.event('object-asked-for-by-a-segment-name')
+                if S.result != 'ok':
+                    ctx.report(f'named-segment-scenario-{S.result}', f'{S.error!r}', w)
+                    continue
+                exp = [b'part-%d' % j for j in range(n)]
+                if res['yielded'] != exp or res.get('outcome') != 'done':
+                    ctx.report('segments-missing' if len(res['yielded']) < n else 'segments-extra-or-duplicated',
+                               f'asked for by the name of segment {k}: yielded {res["yielded"]}, expected {exp} ({res.get("outcome")})', w)
+
+
 def run(ctx):
     ctx.rule = RULE
     rng = ctx.rng
+    if ctx.shard == 0:
+        check_named_segment(ctx)
     scripts = []
     if not ctx.quick:
         # exhaustive: sizes <= 4 x discovery answer x one lossy request with loss 0..retry+... x retry
